@@ -124,6 +124,15 @@ pub struct EnvSpec {
   /// text/plain (hidden from collections) instead of image/png
   #[serde(default)]
   pub hidden: bool,
+  /// content type class: png (default) | text | html | absent | invalid
+  #[serde(default, skip_serializing_if = "Option::is_none")]
+  pub ct: Option<String>,
+  /// content encoding class: none (default) | br (body is brotli-compressed) | gzip (label only) | invalid
+  #[serde(default, skip_serializing_if = "Option::is_none")]
+  pub enc: Option<String>,
+  /// no body at all
+  #[serde(default)]
+  pub nobody: bool,
 }
 
 #[derive(Clone, Debug, Default, Serialize, Deserialize)]
